@@ -119,7 +119,7 @@ def _numeric_refute(ctx, path, d, relset=None):
 def _z3_check(ctx, path, extra, timeout_ms):
     zm = smt.Z3Map()
     s = z3.Solver()
-    s.set("timeout", timeout_ms)
+    s.set("timeout", 5 * timeout_ms)        # backstop only: the resource limit below is the deterministic budget (load-independent verdicts)
     s.set("rlimit", 40000000)
     for node, S in ctx.pre + path.pc:
         s.add(smt.REL[sx.SETREL[S]](zm.term(node)))
